@@ -40,7 +40,10 @@ M = 'mat(out, 4, 4)'
 TAN = 'tan(fovy/R(2))'
 # 0 < fovy < pi is the documented domain; z3 has no pi, 3.1415927 > pi keeps the whole domain (the bound only steers
 # counterexample models towards angles where the native tan(fovy/2) is positive as well)
-FOVY_DOMAIN = [('fovy_positive', 'fovy > 0'), ('fovy_below_pi', 'fovy * 10000000 < 31415927')]
+# sin(fovy/2) > 0 and cos(fovy/2) > 0 are true on 0 < fovy < pi (listed in P.assumptions); they imply tan(fovy/2) > 0 through the
+# tan*cos = sin axiom and let ll2smt report a counterexample angle whose native sine/cosine are the ones the solver chose
+FOVY_DOMAIN = [('fovy_positive', 'fovy > 0'), ('fovy_below_pi', 'fovy * 10000000 < 31415927'),
+               ('sin_half_fovy_positive', 'sin(fovy/R(2)) > 0'), ('cos_half_fovy_positive', 'cos(fovy/R(2)) > 0')]
 
 
 def R(fn, real, **kw):
@@ -259,7 +262,7 @@ for tag in ('f32', 'f64'):
                 RP(fn, 'glm::unProject%s (%s model/proj)  %s' % (Z, gen, PJ),
                   requires=UREQ + [('preimage_is_a_finite_point', 'det(setcol(%s, 3, %s)) != 0' % (PM, Q))],
                   ensures=[('projects_back_to_win', 'And(proportional(matvec(%s, [out[0], out[1], out[2], 1]), %s))' % (PM, Q))],
-                  tier='quick' if gen in CHEAP else 'thorough', timeout=300)
+                  tier='quick' if gen in CHEAP else 'thorough', timeout=300 if gen in CHEAP else 600)
             # unProject(project(obj)) == obj
             fn = 'glm_unProject%s_of_project%s_%s_%s' % (Z, Z, gen, tag)
             dp.shim(fn, 'void', OBJ + gins + VP, 'auto q = glm::unProject%s(glm::project%s(%s, %s, %s, %s), %s, %s, %s); %s' % (
@@ -344,9 +347,47 @@ for cfg, fn, real, kw in dcontracts:
     kw.setdefault('timeout', 60)
     P.contract(fn, real, kind='R', build=cfg_build[cfg], **kw)
 
-P.level_text = ('over the reals (machine arithmetic treated as mathematical): ')
-P.level_note = ''
+P.level_text = ('over the reals (machine arithmetic treated as mathematical): for all real parameters in the documented domain (left != right, '
+                'bottom != top, near != far for ortho; additionally near, far > 0 for frustum; 0 < fovy < pi, aspect > 0 for perspective) the '
+                'real-valued matrix computed by the code clang extracts from /repo sends the eight corners of the view volume to the eight corners of '
+                'the clip cube after the perspective divide (x,y = -1/+1, near -> -1 (NO) or 0 (ZO), far or infinity -> +1, w > 0, RH looks down -z, LH '
+                'down +z), perspective equals the symmetric frustum and perspectiveFov equals perspective(width/height) entrywise; in each of the four '
+                'GLM_FORCE_LEFT_HANDED x GLM_FORCE_DEPTH_ZERO_TO_ONE builds every unsuffixed/half-suffixed builder, project and unProject equal the '
+                'selected variant as real functions; project is gluProject for arbitrary model/proj/viewport (float and int viewport) and maps the '
+                'clip-cube corners to the viewport corners at depth 0/1; unProject projects back onto win; unProject(project(p)) = p for diagonal, '
+                'frustum-shaped and ortho-shaped projections; pickMatrix maps the pick region onto the clip square')
+P.level_note = ('trusted: clang-14 lowering, tools/ll2smt.py symbolic execution over the reals, z3 5.1 (QF_NRA) and sympy (polynomial identity / '
+                'Groebner) as deciding engines, specs/rspec.py (matrix-vector product, determinant, ndc_is, proportional, setcol); tan/sin/cos are '
+                'uninterpreted functions with the ground axioms sin^2+cos^2=1, cos != 0 => tan*cos = sin; blind to rounding (e.g. loss of accuracy of '
+                'far/(far-near) for far >> near), overflow/underflow, NaN/Inf (fovy -> pi, near = far, left = right give Inf/NaN in machine arithmetic: '
+                'excluded by the requires), and to bit-level differences between a dispatcher and its selected variant (there are none in the IR: the '
+                'compiler merges both calls)')
 P.technique = 'contracts over the reals on mechanically extracted LLVM IR: symbolic execution + z3 QF_NRA / sympy Groebner'
 P.design_ref = 'DESIGN.md sections 5 and 6 C08'
-P.assumptions = ['machine arithmetic treated as mathematical (IEEE float/double identified with the reals)']
-P.not_covered = []
+P.assumptions = ['machine arithmetic treated as mathematical (IEEE float/double identified with the reals)',
+                 'for 0 < fovy < pi: sin(fovy/2) > 0, cos(fovy/2) > 0 and hence tan(fovy/2) = sin(fovy/2)/cos(fovy/2) > 0 (stated as requires of every '
+                 'perspective / perspectiveFov / infinitePerspective / tweakedInfinitePerspective contract)',
+                 'the bound fovy < 3.1415927 in the requires is weaker than fovy < pi (it does not restrict the documented domain)',
+                 'view volume of the 4-argument ortho is that of gluOrtho2D: near = -1, far = +1, right-handed, -1..1 depth, in every configuration',
+                 'clip w: ortho matrices have last row (0,0,0,1), perspective matrices (0,0,-1,0) (RH) / (0,0,1,0) (LH) as in glFrustum / '
+                 'D3DXMatrixPerspectiveOffCenterLH (fixes the free scale factor that the corner clauses leave open)',
+                 'tweakedInfinitePerspective is specified as Lengyel\'s right-handed -1..1 matrix (infinity -> 1 - ep) in every configuration; the '
+                 '3-argument form uses ep = 2^-23 (float) / 2^-52 (double)',
+                 'dispatch contracts compare the dispatcher and the selected variant inside one shim (two calls, two output buffers); the selection '
+                 'table (unsuffixed -> cfg; ZO/NO-suffixed -> handedness of cfg; LH/RH-suffixed -> depth range of cfg) is written from manual.md / setup.hpp comments',
+                 'unProject domain: viewport width/height != 0, det(proj*model) != 0, and the pre-image of win is a finite point '
+                 '(Cramer: det(proj*model with column 3 replaced by the clip point of win) != 0)']
+P.not_covered = ['glm::infinitePerspectiveLH / glm::infinitePerspectiveRH: declared in glm/ext/matrix_clip_space.hpp, never defined (link error) - genuine defect, '
+                 'see proposed/C08_report.md and proposed/C08_infinitePerspective_LH_RH.patch; their dispatch contracts are generated automatically '
+                 'once the definitions exist' + (' (present in this tree: contracts active)' if INF_HALF_DEFINED else ' (absent in this tree)'),
+                 'unProjectNO/ZO with model AND proj both fully symbolic (32 matrix entries): z3 and sympy return UNKNOWN at 300 s on the division-safety '
+                 'and projects_back_to_win clauses; covered instead: either matrix symbolic with the other the identity (thorough tier, ~175 s), '
+                 'diagonal, frustum-shaped and ortho-shaped projections',
+                 'unProject(project(p)) == p with a fully symbolic 4x4 in either position (proj_only, model_only, general): UNKNOWN at 300 s; '
+                 'covered for identity, diagonal model x diagonal proj, frustum-shaped and ortho-shaped proj with identity model',
+                 'dispatch of unProject is shown on diagonal / frustum-shaped / ortho-shaped / identity matrices only (the division-safety obligations '
+                 'of the general shim are undecided); dispatch of project is shown at full generality',
+                 'bit-exact (kind F) equality of dispatcher and selected variant: CBMC/minisat timed out (120 s) on the tan-based families; the '
+                 'real-function equality (kind R) is claimed instead',
+                 'float rounding, overflow, fovy -> pi, near -> far (condition of the depth mapping)',
+                 'half (T = half) instantiations; integer viewport for unProject / pickMatrix (project with ivec4 viewport is covered)']
